@@ -4,7 +4,8 @@ package p9
 // create/mkdir/walk/clone/rename/renameat/unlinkat/remove/clunk against the
 // path-addressed backend vhfs; after each request that changes the tree every
 // bound fid is asked for its attributes (inode id), and the path tree of the
-// server is dumped (read-only) at the end.
+// server is dumped (read-only) at the end.  Gated scenarios: unlink vs a parked
+// walk; a rename vs a parked request that binds a new File below the moved entry.
 
 import (
 	"testing"
@@ -65,6 +66,27 @@ func TestVerifC08(t *testing.T) {
 		for _, dir := range []bool{true, false} {
 			out.Emit(vhgUnlinkVsWalk(wga, dir))
 			out.Flush()
+		}
+	}
+	// gated: a rename of an ancestor / of the entry itself is issued while a request that binds a new File
+	// below it (clone, walk to a child, Tlcreate) is parked inside its backend call; every fid must still
+	// reach its object afterwards (quick tier: the two walk flavours alternate over the 16 combinations)
+	nb := 0
+	for _, bind := range []string{"clone", "cloneg", "walk", "create"} {
+		for _, self := range []bool{false, true} {
+			for _, cross := range []bool{false, true} {
+				for _, wga := range []bool{true, false} {
+					if !thorough && wga != (nb%2 == 0) {
+						continue
+					}
+					if vhsTooStuck() {
+						break
+					}
+					out.Emit(vhgRenameVsBind(wga, bind, self, cross))
+					out.Flush()
+				}
+				nb++
+			}
 		}
 	}
 	nhist := 100
